@@ -155,7 +155,9 @@ struct Seen {
 fn drive(c: &Case) -> Result<Seen, mon::PanicInfo> {
     let d = Duplex::new(c.profile.clone());
     let mut nr = Rng::new(c.nla_seed);
-    let nla = gen::nla_cfg(&mut nr, &c.cfg);
+    // one NLA case in eight meets a server whose CHALLENGE carries no timestamp: whatever the client then does (refuse, or
+    // answer with a time of its own), what it emits must be well formed
+    let nla = gen::nla_cfg_opts(&mut nr, &c.cfg, !(c.transport == "tls" && c.idx % 8 == 5));
     d.with(|s| {
         s.tls_identity = c.tls_identity;
         s.tls12_only = c.tls12_only;
@@ -238,7 +240,10 @@ fn drive(c: &Case) -> Result<Seen, mon::PanicInfo> {
         if let Some(Err(e)) = &s.nla_log.auth {
             // structural defects of the AUTHENTICATE token only; proofs are C15's subject
             let structural = ["buffer", "overlap", "MaxLen", "payload starts", "signature", "message type", "too short", "bytes"];
-            if structural.iter().any(|k| e.contains(k)) && !e.contains("does not verify") {
+            // ... and the layout of the NTLMv2 client challenge inside NtChallengeResponse (fixed-size fields, reserved
+            // fields, AV pair list)
+            let blob_layout = e.starts_with("temp:") && !e.contains("missing or altered") && !e.contains("timestamp differs");
+            if (structural.iter().any(|k| e.contains(k)) || blob_layout) && !e.contains("does not verify") {
                 nla.push(format!("NTLM AUTHENTICATE: {}", e));
             }
         }
